@@ -548,3 +548,42 @@ pub fn records_of(msgs: &[Vec<u8>]) -> Result<Vec<Rr>, String> {
     }
     Ok(out)
 }
+
+//------------ query answers ---------------------------------------------------------------
+
+/// Summary of what a fresh reader is answered for (owner, type): rcode,
+/// kind of content, TTL, sorted RDATA, whether an authority part is there.
+pub fn answer_summary(zone: &Zone, owner_wire: &[u8], rtype: u16) -> String {
+    use domain::zonetree::AnswerContent;
+    let Ok(name) = Name::from_octets(Bytes::copy_from_slice(owner_wire)) else {
+        return "bad-name".into();
+    };
+    let read = zone.read();
+    match read.query(name, Rtype::from_int(rtype)) {
+        Err(_) => "out-of-zone".into(),
+        Ok(a) => {
+            let content = match a.content() {
+                AnswerContent::Data(set) => {
+                    let mut rds: Vec<String> = set
+                        .data()
+                        .iter()
+                        .map(|d| {
+                            let mut v: Vec<u8> = vec![];
+                            let _ = d.compose_rdata(&mut v);
+                            hex(&v)
+                        })
+                        .collect();
+                    rds.sort();
+                    format!("data {} ttl={} {:?}", set.rtype(), set.ttl().as_secs(), rds)
+                }
+                AnswerContent::Cname(rr) => {
+                    let mut v: Vec<u8> = vec![];
+                    let _ = rr.data().compose_rdata(&mut v);
+                    format!("cname ttl={} {}", rr.ttl().as_secs(), hex(&v))
+                }
+                AnswerContent::NoData => "nodata".into(),
+            };
+            format!("rcode={} {} authority={}", a.rcode(), content, a.authority().is_some())
+        }
+    }
+}
